@@ -31,6 +31,27 @@ def f16_case():
     return gp.Case('f16', 'K', '', blocks, probes, world)
 
 
+def sibling_cases():
+    """round 10 (seed C05j): a root keyed on a composite over its parameter, a nested header that
+    cannot join the root's family (its bound is no key there) and forms its own, and a sibling
+    that must join the root's family -- in every order, in particular own-family header BEFORE
+    the sibling (the scan over the existing families must not stop at the first non-superset)."""
+    out = []
+    for kw, xw, cw in (('Option', 'Option', 'Vec'), ('Vec', 'Vec', 'Option'), ('Option', 'Box', 'Vec')):
+        def blk(self_fmt, bounded, grp, tag):
+            return gp.Block({'T0': ('ty', 'T')}, None, self_fmt, [(bounded, 'D', {'G': grp}, 'where')], tag)
+        blocks = [blk('{T0}', kw + '<{T0}>', 'GA', 'b0'),
+                  blk(xw + '<{T0}>', xw + '<{T0}>', 'GA', 'b1'),
+                  blk(cw + '<{T0}>', '%s<%s<{T0}>>' % (kw, cw), 'GB', 'b2')]
+        world = {('%s<X0>' % kw, 'D'): {'G': 'GA'}, ('%s<X1>' % kw, 'D'): {'G': 'GA'},
+                 ('%s<X0>' % xw, 'D'): {'G': 'GA'},
+                 ('%s<%s<X0>>' % (kw, cw), 'D'): {'G': 'GB'}, ('%s<%s<X1>>' % (kw, cw), 'D'): {'G': 'GB'}}
+        probes = [(None, 'X0'), (None, 'X1'), (None, '%s<X0>' % xw), (None, '%s<X1>' % xw),
+                  (None, '%s<X0>' % cw), (None, '%s<X1>' % cw), (None, 'X2')]
+        out.append(gp.Case('sibling_own', 'K', '', blocks, probes, world))
+    return out
+
+
 def partition_of(case, order, exe_hook):
     """the partition of block tags into families the macro reports for this order"""
     from . import sexp2coq as sx
@@ -58,6 +79,7 @@ def run(tier, seed, replay=None, variants=None, prop='C05', prefixes=('C05_',), 
     cases = []
     if variants is None:
         cases.append(f16_case())
+        cases.extend(sibling_cases())
     seen = {}
     for i in range(n):
         k = kinds[i % len(kinds)]
